@@ -1,5 +1,6 @@
 /* C05: h_number */
 #include "harness/C05/common.h"
+#include "x_json_rd.c"      /* eof / where / size / go: real bodies */
 #include "x_json_number.c"
 
 void h_number(void) { StringReader* r; JVal* ret; bool in_de; char in_root; IN_COMMON; g_j.de = in_de; size_t in_nw, in_nwx; g_nw = in_nw; g_nwx = in_nwx; JSON_parse_number(r, in_de, in_root, ret); VERIF_REACH(); }
